@@ -6,6 +6,7 @@ package interp
 import (
 	"fmt"
 	"sort"
+	"strconv"
 	"strings"
 )
 
@@ -42,29 +43,31 @@ type Violation struct {
 }
 
 type pathState struct {
-	w         *Worker
-	forced    []Decision
-	pos       int
-	decisions []Decision
-	pc        []*Term
-	bindings  map[string]*Term
-	names     map[string]int
-	inputs    []inputDecl // nondet inputs in creation order
-	obs       []Observation
-	covers    map[string]bool
-	asserts   map[string]int // label -> times checked
-	viols     []Violation
-	assumes   []string
-	steps     int64
-	diverged  string
-	unknowns  int
-	siblings  [][]Decision
-	fresh     int
-	calls     int64
-	goStmts   int
-	lastModel map[string]*Term
-	alpha     map[string]string // input name -> character class it is restricted to
-	notes     map[string]bool   // failed Note labels
+	w           *Worker
+	forced      []Decision
+	pos         int
+	decisions   []Decision
+	pc          []*Term
+	bindings    map[string]*Term
+	names       map[string]int
+	inputs      []inputDecl // nondet inputs in creation order
+	obs         []Observation
+	covers      map[string]bool
+	asserts     map[string]int // label -> times checked
+	viols       []Violation
+	assumes     []string
+	steps       int64
+	diverged    string
+	unknowns    int
+	siblings    [][]Decision
+	fresh       int
+	calls       int64
+	goStmts     int
+	lastModel   map[string]*Term
+	alpha       map[string]string // input name -> character class it is restricted to
+	notes       map[string]bool   // failed Note labels
+	opaques     map[string]bool   // opaque renderings seen on this path
+	opaqueOrder []string
 }
 
 type inputDecl struct {
@@ -405,10 +408,33 @@ func (ps *pathState) currentModel() (map[string]string, bool) {
 // evalUnderModel evaluates t under the last model (unassigned variables take
 // the zero value of their sort) and renders it.
 func (ps *pathState) evalUnderModel(t *Term) string {
+	r := ps.substModel(t, 0)
+	if !r.isConst() {
+		return "?" + r.SMT()
+	}
+	return renderConst(r, "")
+}
+
+// substModel evaluates t under the last model; opaque decimal renderings are
+// computed from the value of the number they render.
+func (ps *pathState) substModel(t *Term, depth int) *Term {
 	vs := map[string]Sort{}
 	t.vars(vs)
 	b := map[string]*Term{}
 	for n, s := range vs {
+		if o, ok := opaqueReg.Load(n); ok && depth < 4 {
+			oi := o.(opaqueInfo)
+			if signed, dec := isDecimalKind(oi.kind); dec {
+				if a := ps.substModel(oi.arg, depth+1); a.isConst() {
+					if signed {
+						b[n] = mkStr(strconv.FormatInt(sext(a.U, a.Sort.Bits), 10))
+					} else {
+						b[n] = mkStr(strconv.FormatUint(a.U, 10))
+					}
+					continue
+				}
+			}
+		}
 		if v, ok := ps.lastModel[n]; ok {
 			b[n] = v
 		} else if v, ok := ps.bindings[n]; ok {
@@ -426,11 +452,7 @@ func (ps *pathState) evalUnderModel(t *Term) string {
 			}
 		}
 	}
-	r := t.subst(b)
-	if !r.isConst() {
-		return "?" + r.SMT()
-	}
-	return renderConst(r, "")
+	return t.subst(b)
 }
 
 func (ps *pathState) observe(key string, vals []value) {
@@ -502,11 +524,11 @@ func sortedKeys(m map[string]bool) []string {
 // rewrite is an equivalence under the path's alphabet assumptions and spares
 // the solver word equations.
 func (ps *pathState) normalize(t *Term) *Term {
-	if len(ps.alpha) == 0 || t.isConst() || t.Op == "var" {
+	if (len(ps.alpha) == 0 && len(ps.opaques) == 0) || t.isConst() || t.Op == "var" {
 		return t
 	}
 	if t.Op == "=" && t.Args[0].Sort.K == 's' {
-		if r := ps.splitEq(t.Args[0], t.Args[1]); r != nil {
+		if r := ps.splitEqRec(t.Args[0], t.Args[1], 0); r != nil {
 			return r
 		}
 		return t
@@ -528,7 +550,22 @@ func (ps *pathState) normalize(t *Term) *Term {
 	return t
 }
 
-func (ps *pathState) splitEq(a, b *Term) *Term {
+// splitEqRec splits recursively and decides equalities between opaque
+// renderings of numbers by the numbers themselves.
+func (ps *pathState) splitEqRec(a, b *Term, depth int) *Term {
+	if a.isConst() && b.isConst() {
+		return mkBool(a.S == b.S)
+	}
+	if r := opaqueEq(a, b); r != nil {
+		return r
+	}
+	if depth > 8 {
+		return nil
+	}
+	return ps.splitEq(a, b, depth)
+}
+
+func (ps *pathState) splitEq(a, b *Term, depth int) *Term {
 	pa, pb := strParts(a), strParts(b)
 	// candidate separators: characters of the constant parts
 	seen := map[byte]bool{}
@@ -556,7 +593,11 @@ func (ps *pathState) splitEq(a, b *Term) *Term {
 		}
 		var cs []*Term
 		for k := range sa {
-			cs = append(cs, mkEq(sa[k], sb[k]))
+			if r := ps.splitEqRec(sa[k], sb[k], depth+1); r != nil {
+				cs = append(cs, r)
+			} else {
+				cs = append(cs, mkEq(sa[k], sb[k]))
+			}
 		}
 		return mkAnd(cs...)
 	}
